@@ -68,6 +68,22 @@ func (e *exec) readOnlyCheck(src, where string) {
 	if err := simfs.CopyTree(src, roDir); err != nil {
 		panic("harness: " + err.Error())
 	}
+	if snaps, _ := filepath.Glob(filepath.Join(src, "chunk_snapshot.*")); len(snaps) == 0 && e.rng.Chance(0.25) {
+		// lost log tail: the newest WAL segment of both copies ends at an earlier record boundary (a state the disk can
+		// be in after an unclean shutdown); data whose records are gone then exists only in the head chunk files
+		if seg := newestFile(filepath.Join(src, "wal", "0*"), 1); seg != "" {
+			if offs := recordOffsets(seg); len(offs) > 1 {
+				cut := offs[e.rng.Intn(len(offs)-1)]
+				for _, d := range []string{rwDir, roDir} {
+					if err := os.Truncate(filepath.Join(d, "wal", filepath.Base(seg)), cut); err != nil {
+						panic("harness: " + err.Error())
+					}
+				}
+				e.res.Count("fault:wal-tail-lost-at-record-boundary", 1)
+				where += fmt.Sprintf(" (WAL segment %s cut at record boundary %d)", filepath.Base(seg), cut)
+			}
+		}
+	}
 	if walRefReuse(src) {
 		// listed finding: the WAL uses one ref for two label sets; a full WAL replay (which the read-only open does)
 		// cannot agree with the snapshot-based read-write open
